@@ -92,6 +92,8 @@ func Walk(v Visitor, node Node) {
 		Walk(v, n.Domain)
 		if e := n.Extra; e != nil {
 			switch e := e.(type) {
+			case *DomainTextLitEx:
+				walkList(v, e.Args)
 			case *StringLitEx:
 				for _, part := range e.Parts {
 					if e, ok := part.(Expr); ok {
